@@ -805,9 +805,12 @@ def check_vp(ctx, c, payload, post):
         if gotd != sorted(gotd):
             return ("violation", "VpTree::search(query %d): results not nearest first" % q)
         for (a, dv) in pairs:
-            if dv is None or abs(dv * L - math.sqrt(sq[q][a])) > 1e-9 * (1 + math.sqrt(sq[q][a])):
-                return ("violation", "VpTree::search(query %d): reported distance %r to %d is not the Euclidean "
-                                     "distance %r" % (q, dv, a, math.sqrt(sq[q][a]) / L))
+            # the reported number must be the distance to that sample in ONE convention for the whole
+            # call (Euclidean, what the kernel row squares; a squared report is left to the PK stream)
+            e = math.sqrt(sq[q][a]) / L
+            if dv is None or (abs(dv - e) > 1e-9 * (1 + e) and abs(dv - e * e) > 1e-9 * (1 + e * e)):
+                return ("violation", "VpTree::search(query %d): reported distance %r to %d is neither the Euclidean "
+                                     "distance %r nor its square" % (q, dv, a, e))
     # integer-distance inputs: extracted invariant checkers + extracted search on the dumped tree
     isq = [[math.isqrt(v) for v in r] for r in sq]
     if all(isq[a][b] ** 2 == sq[a][b] for a in range(N) for b in range(N)) and N >= 1:
